@@ -85,6 +85,102 @@ def _ctor_args(ret: Sym) -> Optional[Tuple[Sym, Sym]]:
     return None
 
 
+def _floor_base(t: Sym):
+    """('q'|'r', numerator, divisor) for x // d, x % d, divmod(x, d)[i] with a positive constant d"""
+    if t[0] == "item" and t[1][0] == "call" and dotted(t[1][1]) == "divmod" and len(t[1][2]) == 2 and t[2] in (0, 1):
+        x, d = t[1][2]
+        return ("q" if t[2] == 0 else "r", x, d)
+    if t[0] == "op" and t[1] in ("//", "%") and len(t) == 4:
+        return ("q" if t[1] == "//" else "r", t[2], t[3])
+    return None
+
+
+def _lin_in_base(t: Sym):
+    """t as a * base + c with integer constants -> (a, c, base) for base a floor quotient / remainder"""
+    b = _floor_base(t)
+    if b is not None and b[2][0] == "c" and isinstance(b[2][1], int) and b[2][1] > 0:
+        return (1, 0, b)
+    if t[0] == "op" and t[1] == "neg":
+        r = _lin_in_base(t[2])
+        return None if r is None else (-r[0], -r[1], r[2])
+    if t[0] == "op" and t[1] in ("+", "-", "*") and len(t) == 4:
+        x, y = t[2], t[3]
+        cx = x[1] if x[0] == "c" and isinstance(x[1], int) and not isinstance(x[1], bool) else None
+        cy = y[1] if y[0] == "c" and isinstance(y[1], int) and not isinstance(y[1], bool) else None
+        if t[1] == "*":
+            if cy is not None:
+                r = _lin_in_base(x)
+                return None if r is None else (r[0] * cy, r[1] * cy, r[2])
+            if cx is not None:
+                r = _lin_in_base(y)
+                return None if r is None else (r[0] * cx, r[1] * cx, r[2])
+            return None
+        if cy is not None:
+            r = _lin_in_base(x)
+            return None if r is None else (r[0], r[1] + (cy if t[1] == "+" else -cy), r[2])
+        if cx is not None:
+            r = _lin_in_base(y)
+            if r is None:
+                return None
+            return (r[0], r[1] + cx, r[2]) if t[1] == "+" else (-r[0], cx - r[1], r[2])
+    return None
+
+
+def _same_sign_by_ranges(sec: Sym, nan: Sym, val) -> Optional[Tuple[str, str]]:
+    """Duration parts built from a floor quotient q and remainder r of one division (possibly adjusted: q + 1, r - D, negated):
+    on this path, do they add up to the value, can they have opposite signs, does |nanos| stay below one second?
+    None when the parts are not of that form (the convention tagging decides then)."""
+    ls, ln = _lin_in_base(sec), _lin_in_base(nan)
+    if ls is None or ln is None:
+        return None
+    (aq, cq, bq), (ar, cr, br) = ls, ln
+    if bq[0] != "q" or br[0] != "r" or bq[1] != br[1] or bq[2] != br[2]:
+        return None
+    num, D = bq[1], bq[2][1]
+    if aq not in (1, -1) or ar == 0 or (ar // aq) <= 0 or ar % aq:
+        return ("inc", f"seconds = {show(sec)}, nanos = {show(nan)}: scaling not recognised")
+    K = ar // aq
+    # the value: seconds * D * K + nanos == aq * (q * D + r) * K + (cq * D * K + cr)
+    if cq * D * K + cr != 0:
+        return ("bad", f"seconds = {show(sec)} and nanos = {show(nan)} do not add up to the value (off by {cq * D * K + cr} nanos)")
+    is_abs = num[0] == "call" and dotted(num[1]) == "abs" and len(num[2]) == 1
+    x = num[2][0] if is_abs else num
+    neg = val.get(("op", "<", x, C(0)))
+    if neg is None and val.get(("op", "<", C(-1), x)) is not None:
+        neg = not val[("op", "<", C(-1), x)]
+    BIG = 10 ** 30
+    if is_abs:
+        if neg is None:
+            return ("inc", "split on abs(x) but the path does not decide the sign of x")
+        if aq != (-1 if neg else 1):
+            return ("bad", f"the parts of abs(x) are {'not ' if neg else ''}negated on the path where x is {'negative' if neg else 'non-negative'}: the value changes sign")
+        qr = (0, BIG)
+    else:
+        if aq != 1:
+            return ("bad", "the quotient of x itself is negated: the value changes sign")
+        qr = (-BIG, -1) if neg is True else (0, BIG) if neg is False else (-BIG, BIG)
+    rr = (0, D - 1)
+    r_term = ("item", ("call", N("divmod"), (num, C(D)), ()), 1)
+    for k_, v_ in val.items():
+        if k_ in (r_term, ("op", "%", num, C(D))):
+            rr = (1, D - 1) if v_ else (0, 0)
+        if k_[0] == "op" and k_[1] == "==" and len(k_) == 4 and k_[2] in (r_term, ("op", "%", num, C(D))) and k_[3] == C(0):
+            rr = (0, 0) if v_ else (1, D - 1)
+    s_rng = sorted((aq * qr[0] + cq, aq * qr[1] + cq))
+    n_rng = sorted((ar * rr[0] + cr, ar * rr[1] + cr))
+    if max(abs(n_rng[0]), abs(n_rng[1])) >= D * K:
+        return ("bad", f"nanos = {show(nan)} reaches {n_rng[0] if abs(n_rng[0]) >= D * K else n_rng[1]} on the path {val_text_(val)} (the remainder can be 0 there): |nanos| must stay below {D * K}, "
+                       f"and the pair differs from the reference's (seconds, 0)")
+    if (s_rng[1] > 0 and n_rng[0] < 0) or (s_rng[0] < 0 and n_rng[1] > 0):
+        return ("bad", f"on the path {val_text_(val)} seconds = {show(sec)} ranges over [{'-inf' if s_rng[0] < -10**29 else s_rng[0]}, {'inf' if s_rng[1] > 10**29 else s_rng[1]}] and nanos over "
+                       f"[{n_rng[0]}, {n_rng[1]}]: for a negative Duration with a fraction the parts have opposite signs (seconds=-2, nanos=+5e8 for -1.5 s)")
+    return ("ok", "quotient / remainder adjusted so that the parts add up, never have opposite signs, |nanos| < 1 s")
+
+
+def val_text_(val) -> str:
+    return "{" + ", ".join(f"{show(k)}={'T' if v else 'F'}" for k, v in val.items()) + "}"
+
+
 def rule_Q1(ctx) -> None:
     mod = ctx.repo.mod(M_INIT)
     for q, need in (("_Timestamp.from_datetime", "floor"), ("_Duration.from_timedelta", "same-sign")):
@@ -108,6 +204,11 @@ def rule_Q1(ctx) -> None:
             if args is None:
                 verdicts.append(("inc", f"return value {show(p.value)} is not cls(seconds, nanos)"))
                 continue
+            if need == "same-sign":
+                v = _same_sign_by_ranges(args[0], args[1], p.valuation)
+                if v is not None:
+                    verdicts.append(v)
+                    continue
             ts, tn = _tag(args[0]), _tag(args[1])
             if ts is None or tn is None:
                 # explicit normalisation branches (reference style) are accepted when both signs are tested
